@@ -217,7 +217,7 @@ theorem restore_take {c : Cfg} (hc : c.ok) {s s0 : MM} (hI : Inv c s) {ref : Nat
 
 /-! ## non-vacuity -/
 
-def cTiny : Cfg := ⟨3, 1, 5, 16, fun i o => i + o⟩
+def cTiny : Cfg := ⟨3, 1, 5, 16, fun i o => i + o, false⟩
 theorem cTiny_ok : cTiny.ok := ⟨by decide, by decide⟩
 
 /-- checkpoint with two live blocks; afterwards: overwrite, free, allocate into a NEW arena that is
